@@ -9,8 +9,15 @@
    [c15_full_statement] is the property restricted to the three modelled decoders; the property
    itself quantifies over every reader of every crate and is covered for the rest by the
    implementation-side search only (partial by design).                                        *)
-From Coq Require Import List NArith Bool.
+From Coq Require Import List NArith ZArith Bool.
 From NV Require Import Hostile.Panics Hostile.PanicsProofs.
+(* the decoders of other properties (read-only imports, never [Import]ed: their Ok / Err / Panic
+   constructors are written with their module names below) and the C15 totality proofs *)
+From NV Require Sam.Lazy Text.TextBase Text.Gff Text.GffLine Text.Gtf Text.GtfLine Text.BedRec
+  Text.BedRecProofs Vcf.Span Vcf.SpanProofs Bgzf.Frame Bgzf.Reader Bgzf.Inflate Bgzf.InflateFuel
+  Bam.Record Bam.Decode Bam.Lazy Cram.Itf8 Cram.Ltf8 Cram.Vlq Cram.Nx16Xform Cram.Nx16XformProofs
+  Index.Layout Bcf.Record.
+From NV Require Hostile.TotalSam Hostile.TotalText Hostile.TotalBin Hostile.TotalBam Hostile.TotalBcf.
 Import ListNotations.
 Open Scope N_scope.
 
@@ -121,3 +128,246 @@ Example c15_nonvacuous_query : query 14 10 0 1 1 = Ok true /\ query 14 5 4681 1 
 Proof. split; vm_compute; reflexivity. Qed.
 Example c15_nonvacuous_rfreq : rfreq ([97; 5; 98; 2; 2; 1; 1; 114; 2; 0] ++ states_tail) = Ok tt.
 Proof. vm_compute. reflexivity. Qed.
+
+
+(* ============================================================================================ *)
+(* TOTALITY OF THE DECODERS MODELLED BY OTHER PROPERTIES (third deepening wave).                 *)
+(* Each theorem quantifies over EVERY byte string; the model functions are the ones the owning   *)
+(* property extracts and compares with the crates (C01 BGZF, C05 BAM, C06 SAM, C08 CRAM codecs,  *)
+(* C09 VCF, C10 BCF, C04/C13 index layouts, C18 GFF/GTF/BED).  A model outcome that stands for a *)
+(* Rust panic (Panic / LPanic / APanic / None-of-a-slice) is shown unreachable; where a model    *)
+(* loop runs on fuel, the fuel is shown never to be the reason of a result.                      *)
+(* ============================================================================================ *)
+
+(* ---- (4) SAM: read_record + every accessor of the lazy sam::Record -------------------------- *)
+
+(* For every reference dictionary and every text: the result is a record view, an accessor error
+   (LErr col), end of input or InvalidData -- never a slice panic (LPanic) in any column. *)
+Theorem c15_sam_lazy_total : forall refs text c,
+  NV.Sam.Lazy.lazy_view refs text <> NV.Sam.Lazy.LPanic c.
+Proof. intros refs text c. exact (NV.Hostile.TotalSam.sam_lazy_view_total refs text c). Qed.
+Print Assumptions c15_sam_lazy_total.
+
+(* the reason: the eleven bounds are nondecreasing and end inside the buffer, for every input *)
+Theorem c15_sam_lazy_bounds : forall text buf ends,
+  NV.Sam.Lazy.lazy_read text = NV.Sam.Lazy.LRec buf ends ->
+  NV.Hostile.TotalSam.chainN 0 ends (NV.Sam.Fields.len buf) /\ length ends = 11%nat.
+Proof. exact NV.Hostile.TotalSam.sam_lazy_read_bounds. Qed.
+Print Assumptions c15_sam_lazy_bounds.
+
+(* ---- (5) GFF3 / GTF: line_bufs(), record_bufs(), the lazy line view ------------------------- *)
+
+Theorem c15_gff_line_bufs_total : forall prs text,
+  Forall (fun b => b <> NV.Text.GffLine.BRecord NV.Text.TextBase.Panic)
+         (NV.Text.GffLine.gff_file_line_bufs prs text)
+  /\ Forall (fun r => r <> NV.Text.TextBase.Panic)
+            (NV.Text.GffLine.gff_record_bufs (NV.Text.GffLine.gff_file_line_bufs prs text)).
+Proof.
+  intros prs text. split;
+  [apply NV.Hostile.TotalText.gff_file_line_bufs_total | apply NV.Hostile.TotalText.gff_file_record_bufs_total].
+Qed.
+Print Assumptions c15_gff_line_bufs_total.
+
+(* Line::as_record is never reached on a line that is not a record, and the attribute iterator of
+   a record ends normally or with InvalidData: neither a panic nor the model's fuel *)
+Theorem c15_gff_line_total : forall prs line col,
+  NV.Text.GffLine.gff_classify prs line <> NV.Text.GffLine.GRecord NV.Text.Gff.NotRecord /\
+  (snd (NV.Text.Gff.gff_attrs_parse col) = None \/
+   snd (NV.Text.Gff.gff_attrs_parse col) = Some (NV.Text.TextBase.Err NV.Text.TextBase.InvalidData)).
+Proof.
+  intros prs line col. split;
+  [apply NV.Hostile.TotalText.gff_classify_total | apply NV.Hostile.TotalText.gff_attrs_parse_end].
+Qed.
+Print Assumptions c15_gff_line_total.
+
+Theorem c15_gtf_line_bufs_total : forall prs text,
+  Forall (fun b => b <> NV.Text.GtfLine.TBRecord NV.Text.TextBase.Panic)
+         (NV.Text.GtfLine.gtf_file_line_bufs prs text).
+Proof. exact NV.Hostile.TotalText.gtf_file_line_bufs_total. Qed.
+Print Assumptions c15_gtf_line_bufs_total.
+
+Theorem c15_gtf_line_total : forall prs line col,
+  NV.Text.GtfLine.gtf_classify prs line <> NV.Text.GtfLine.TRecord NV.Text.Gtf.GNotRecord /\
+  NV.Text.Gtf.gtf_attrs_parse col <> NV.Text.TextBase.Panic /\
+  NV.Text.Gtf.gtf_attrs_parse col <> NV.Text.TextBase.Err NV.Text.TextBase.OutOfFuel.
+Proof.
+  intros prs line col. split;
+  [apply NV.Hostile.TotalText.gtf_classify_total | apply NV.Hostile.TotalText.gtf_attrs_parse_total].
+Qed.
+Print Assumptions c15_gtf_line_total.
+
+(* ---- (6) BED: the reader loop over one reused record, any input, any previous record state --- *)
+
+(* no call returns a panic or runs out of fuel; every record returned Ok has panic-free accessors
+   and a panic-free owned conversion (whole-file closure of c18_bed_read_ok_no_panic) *)
+Theorem c15_bed_read_file_total : forall fuel n src old,
+  (3 <= n)%nat -> length (NV.Text.BedRec.bf_std old) = n ->
+  Forall (NV.Hostile.TotalText.bed_item_ok n) (NV.Text.BedRec.bed_read_file fuel n src old).
+Proof. exact NV.Hostile.TotalText.bed_read_file_total. Qed.
+Print Assumptions c15_bed_read_file_total.
+
+(* ---- (7) VCF: variant_end / variant_span of any record (C09's theorem, restated) ------------- *)
+Theorem c15_vcf_span_total : forall v45 r,
+  NV.Vcf.Span.variant_end v45 r <> NV.Text.TextBase.Panic /\
+  NV.Vcf.Span.variant_span v45 r <> NV.Text.TextBase.Panic.
+Proof.
+  intros v45 r. destruct (NV.Vcf.SpanProofs.variant_span_no_panic v45 r) as (H1 & H2 & _).
+  split; assumption.
+Qed.
+Print Assumptions c15_vcf_span_total.
+
+(* ---- (8) BGZF: frame parser, block parser and read_to_end on any bytes ----------------------- *)
+
+(* for EVERY inflater (so also for the real one): Ok or an io::Error; the only Panic of the model
+   is the fuel of the frame loop, and every frame consumes >= 26 bytes *)
+Theorem c15_bgzf_read_to_end_total : forall inflate src,
+  NV.Bgzf.Frame.parse_frame src <> NV.Bgzf.Frame.Panic /\
+  NV.Bgzf.Reader.parse_block inflate src <> NV.Bgzf.Frame.Panic /\
+  snd (NV.Bgzf.Reader.reader_read_to_end inflate src) <> NV.Bgzf.Frame.Panic.
+Proof.
+  intros inflate src. split; [apply NV.Hostile.TotalBin.parse_frame_total|].
+  split; [apply NV.Hostile.TotalBin.parse_block_total | apply NV.Hostile.TotalBin.bgzf_read_to_end_total].
+Qed.
+Print Assumptions c15_bgzf_read_to_end_total.
+
+Theorem c15_bgzf_read_blocks_fuel : forall inflate f1 f2 src,
+  (length src < f1)%nat -> (length src < f2)%nat ->
+  NV.Bgzf.Reader.read_blocks inflate f1 src = NV.Bgzf.Reader.read_blocks inflate f2 src.
+Proof. exact NV.Hostile.TotalBin.bgzf_read_blocks_fuel. Qed.
+Print Assumptions c15_bgzf_read_blocks_fuel.
+
+(* the executable INFLATE of C01: its None is never "out of fuel" (C01's theorem, restated) *)
+Theorem c15_inflate_fuel_total : forall f cf limit src,
+  (8 * length src < f)%nat -> (8 * length src < cf)%nat ->
+  match NV.Bgzf.Inflate.blocks f cf limit ([], src) NV.Bgzf.Inflate.ob_empty with
+  | None => None
+  | Some (s, o) => Some (rev_append (NV.Bgzf.Inflate.ob_rev o) [], snd s)
+  end = NV.Bgzf.Inflate.inflate_raw limit src.
+Proof. exact NV.Bgzf.InflateFuel.inflate_fuel_sufficient. Qed.
+Print Assumptions c15_inflate_fuel_total.
+
+(* ---- (9) BAM: eager decoder loops and the lazy accessors ------------------------------------- *)
+
+(* the fuel of the four eager loops and of the two lazy walkers is never the reason of a result *)
+Theorem c15_bam_decode_fuel :
+  (forall f1 f2 cnt bs, (length bs <= f1)%nat -> (length bs <= f2)%nat ->
+     NV.Bam.Decode.dec_ops f1 cnt bs = NV.Bam.Decode.dec_ops f2 cnt bs) /\
+  (forall w sg, (1 <= w)%nat -> forall f1 f2 cnt bs, (length bs <= f1)%nat -> (length bs <= f2)%nat ->
+     NV.Bam.Decode.dec_elems f1 w sg cnt bs = NV.Bam.Decode.dec_elems f2 w sg cnt bs) /\
+  (forall f1 f2 bs acc, (length bs <= f1)%nat -> (length bs <= f2)%nat ->
+     NV.Bam.Decode.dec_data f1 bs acc = NV.Bam.Decode.dec_data f2 bs acc) /\
+  (forall f1 f2 bs, (length bs <= f1)%nat -> (length bs <= f2)%nat ->
+     NV.Bam.Lazy.lz_fields f1 bs = NV.Bam.Lazy.lz_fields f2 bs) /\
+  (forall f1 f2 bs, (length bs <= f1)%nat -> (length bs <= f2)%nat ->
+     NV.Bam.Lazy.raw_cigar f1 bs = NV.Bam.Lazy.raw_cigar f2 bs).
+Proof.
+  split; [exact NV.Hostile.TotalBam.dec_ops_fuel|].
+  split; [exact NV.Hostile.TotalBam.dec_elems_fuel|].
+  split; [exact NV.Hostile.TotalBam.dec_data_fuel|].
+  split; [exact NV.Hostile.TotalBam.lz_fields_fuel | exact NV.Hostile.TotalBam.raw_cigar_fuel].
+Qed.
+Print Assumptions c15_bam_decode_fuel.
+
+(* any stream position: if read_record frames a body and validate accepts it, no lazy accessor of
+   the returned record panics (C05's lemmas in one statement; None of an accessor = Rust panic) *)
+Theorem c15_bam_read_record_accessors_total : forall block bs rest body tail,
+  NV.Bam.Record.rdW 4 block = Some (bs, rest) -> NV.Bam.Record.takeN bs rest = Some (body, tail) ->
+  NV.Bam.Decode.validate body = NV.Bam.Record.Ok tt ->
+  (exists v, NV.Bam.Lazy.lazy_view_of body = Some v /\
+     NV.Bam.Lazy.v_name v <> None /\ NV.Bam.Lazy.v_cigar v <> None /\ NV.Bam.Lazy.v_seq v <> None /\
+     NV.Bam.Lazy.v_qual v <> None /\ NV.Bam.Lazy.v_data_raw v <> None)
+  /\ (exists d, NV.Bam.Lazy.lzp_data body = Some d)
+  /\ (forall i, exists x, NV.Bam.Lazy.lzp_seq_get body i = Some x).
+Proof. exact NV.Hostile.TotalBam.bam_read_record_accessors_total. Qed.
+Print Assumptions c15_bam_read_record_accessors_total.
+
+(* ---- (10) CRAM integer codings and the Nx16 transforms --------------------------------------- *)
+
+(* a successful read consumes at least one byte (no loop built on them can spin) and uint7 stays a
+   u32 although `n <<= 7` drops bits *)
+Theorem c15_cram_ints_total :
+  (forall bs z r, NV.Cram.Itf8.read_itf8 bs = Some (z, r) -> (length r < length bs)%nat) /\
+  (forall bs z r, NV.Cram.Ltf8.read_ltf8 bs = Some (z, r) -> (length r < length bs)%nat) /\
+  (forall bs v r, NV.Cram.Vlq.read_uint7 bs = NV.Cram.Vlq.U7Ok v r ->
+                  (length r < length bs)%nat /\ (v < 4294967296)%N).
+Proof.
+  split; [exact NV.Hostile.TotalBin.read_itf8_progress|].
+  split; [exact NV.Hostile.TotalBin.read_ltf8_progress|].
+  intros bs v r H. split;
+  [exact (NV.Hostile.TotalBin.read_uint7_progress bs v r H) | exact (NV.Hostile.TotalBin.read_uint7_range bs v r H)].
+Qed.
+Print Assumptions c15_cram_ints_total.
+
+(* rANS Nx16 PACK / RLE / CAT decode of any bytes never panics (C08's theorem, restated) *)
+Theorem c15_nx16_decode_total : forall bs usize,
+  NV.Cram.Nx16Xform.nx_decode bs usize <> NV.Cram.Nx16Xform.DPanic.
+Proof. exact NV.Cram.Nx16XformProofs.nx_decode_never_panics. Qed.
+Print Assumptions c15_nx16_decode_total.
+
+(* ---- (11) index readers: a hostile count is only accepted when the bytes are there ------------ *)
+
+Theorem c15_gzi_read_bounded : forall bs l,
+  NV.Index.Layout.read_gzi bs = Some l -> length bs = (8 + 16 * length l)%nat.
+Proof. exact NV.Hostile.TotalBin.read_gzi_bounded. Qed.
+Print Assumptions c15_gzi_read_bounded.
+
+(* bai_items = 8 per bin + 16 per chunk + 8 per linear-index entry, summed over the references *)
+Theorem c15_bai_read_bounded : forall bs i,
+  NV.Index.Layout.read_bai bs = Some i ->
+  (8 + 8 * length (NV.Index.Layout.bi_refs i) <= length bs)%nat /\
+  (8 + NV.Hostile.TotalBin.bai_items (NV.Index.Layout.bi_refs i) <= length bs)%nat.
+Proof. exact NV.Hostile.TotalBin.read_bai_bounded. Qed.
+Print Assumptions c15_bai_read_bounded.
+
+(* ---- (12) BCF: the eager record decoder's counts are bounded by the bytes present ------------- *)
+
+Theorem c15_bcf_fields_bounded : forall m mult dup n bs l r,
+  NV.Bcf.Record.dec_fields m mult dup n bs = Some (l, r) ->
+  (3 * n + length r <= length bs)%nat /\ length l = n.
+Proof. exact NV.Hostile.TotalBcf.dec_fields_bounded. Qed.
+Print Assumptions c15_bcf_fields_bounded.
+
+Theorem c15_bcf_record_bounded : forall strings contigs bs h infos fmts rest,
+  NV.Bcf.Record.dec_record strings contigs bs = Some (h, infos, fmts, rest) ->
+  (8 + 3 * length fmts + length rest <= length bs)%nat /\
+  length infos = Z.to_nat (NV.Bcf.Record.h_n_info h) /\ length fmts = Z.to_nat (NV.Bcf.Record.h_n_fmt h).
+Proof. exact NV.Hostile.TotalBcf.dec_record_bounded. Qed.
+Print Assumptions c15_bcf_record_bounded.
+
+(* the totality statement for the decoders of other properties, in one piece; what is NOT in it is
+   listed in checks/C15.json (BCF typed value decoders, CSI/tabix/fai/crai readers, CRAM container
+   and record decoders, FASTA/FASTQ readers, VCF field parsers: implementation-side search only) *)
+Definition c15_imported_decoders_full_statement : Prop :=
+  (forall refs text c, NV.Sam.Lazy.lazy_view refs text <> NV.Sam.Lazy.LPanic c) /\
+  (forall prs text, Forall (fun b => b <> NV.Text.GffLine.BRecord NV.Text.TextBase.Panic)
+                           (NV.Text.GffLine.gff_file_line_bufs prs text)) /\
+  (forall prs text, Forall (fun b => b <> NV.Text.GtfLine.TBRecord NV.Text.TextBase.Panic)
+                           (NV.Text.GtfLine.gtf_file_line_bufs prs text)) /\
+  (forall fuel n src old, (3 <= n)%nat -> length (NV.Text.BedRec.bf_std old) = n ->
+     Forall (NV.Hostile.TotalText.bed_item_ok n) (NV.Text.BedRec.bed_read_file fuel n src old)) /\
+  (forall inflate src, snd (NV.Bgzf.Reader.reader_read_to_end inflate src) <> NV.Bgzf.Frame.Panic) /\
+  (forall bs usize, NV.Cram.Nx16Xform.nx_decode bs usize <> NV.Cram.Nx16Xform.DPanic).
+
+Theorem c15_imported_decoders_total : c15_imported_decoders_full_statement.
+Proof.
+  split; [intros refs text c; exact (NV.Hostile.TotalSam.sam_lazy_view_total refs text c)|].
+  split; [exact NV.Hostile.TotalText.gff_file_line_bufs_total|].
+  split; [exact NV.Hostile.TotalText.gtf_file_line_bufs_total|].
+  split; [exact NV.Hostile.TotalText.bed_read_file_total|].
+  split; [exact NV.Hostile.TotalBin.bgzf_read_to_end_total|].
+  exact NV.Cram.Nx16XformProofs.nx_decode_never_panics.
+Qed.
+Print Assumptions c15_imported_decoders_total.
+
+(* non-vacuity: the imported models accept ordinary inputs and the hostile ones are errors *)
+Example c15_nonvacuous_sam_cr :
+  (* the former panic class: CR before an empty last column *)
+  exists r d, NV.Sam.Lazy.lazy_view [] [114;9;52;9;42;9;48;9;48;9;42;9;42;9;48;9;48;9;42;13;9;10]
+              = NV.Sam.Lazy.LOk r d.
+Proof. vm_compute. eexists. eexists. reflexivity. Qed.
+Example c15_nonvacuous_gzi : NV.Index.Layout.read_gzi [1;0;0;0;0;0;0;0; 5;0;0;0;0;0;0;0; 9;0;0;0;0;0;0;0] = Some [(5, 9)]
+  /\ NV.Index.Layout.read_gzi [200;0;0;0;0;0;0;0; 5;0;0;0;0;0;0;0; 9;0;0;0;0;0;0;0] = None.
+Proof. split; vm_compute; reflexivity. Qed.
+Example c15_nonvacuous_bgzf : forall inflate,
+  NV.Bgzf.Reader.reader_read_to_end inflate [31;139;8;4;0;0;0;0;0;255;6;0;66;67;2;0;5;0] = ([], NV.Bgzf.Frame.Err NV.Bgzf.Frame.InvalidData).
+Proof. intro inflate. vm_compute. reflexivity. Qed.
